@@ -1,13 +1,17 @@
 import Dmn.Lemmas.ModelBuild
+import Dmn.Lemmas.XmlMandatory
+import Dmn.Lemmas.XmlTable
 
 /-!
 # C12 — loading any model text yields a usable model or an error, never a crash (proof part)
 
 Theorems about `Dmn.MB` (model of the index pairing in `parse_decision_table` and of the
 reference-following traversals of `ModelEvaluator::new` / `evaluate_invocable`) and about
-`Dmn.DT.evaluate` for the evaluation of a built table.  The XML layer (roxmltree), the stack and
-process aborts are **not** modelled: they are validated by the fault enumeration of
-`harness/src/c12.rs`.  The decision-table statements hold at full strength since f36e6c9
+`Dmn.DT.evaluate` for the evaluation of a built table, and (second half, `namespace Dmn.Xml`) about the
+model `Dmn.Xml.parse` of the XML layer `model/src/model/parser.rs` over the abstract tree roxmltree
+delivers, composed with the builder model.  roxmltree itself, the `uriparse` crate (a parameter of
+the parser model), the stack and process aborts are **not** modelled: they are validated by the
+fault enumeration of `harness/src/c12.rs`.  The decision-table statements hold at full strength since f36e6c9
 (F11 repaired), the termination statements since aff91af and b66efe5 (F12a–e repaired:
 `ModelEvaluator::new` rejects cyclic requirements and self-referring item definitions).
 Unbounded recursion inside FEEL expressions (F12f, property C05) is outside this model.
@@ -357,3 +361,292 @@ theorem cyclic_witnesses_rejected (fuel : Nat) :
   simp [cycItem, forM, seq]
 
 end Dmn.MB
+
+/-! # The XML layer: `model/src/model/parser.rs` over the abstract tree -/
+
+namespace Dmn.Xml
+
+open Dmn Dmn.DT
+
+/-- A `uriparse` that accepts everything as a relative reference (non-vacuity of `UriTotal`). -/
+def uriId : Str → UriOut := fun s => .ok true s
+
+/-- `dmntk_model::parse` never panics, for EVERY tree roxmltree can deliver (any names, attributes,
+nesting, text and comment nodes anywhere) — provided the `uriparse` call of `HRef::try_from` does not
+(the crate is not modelled; the panic repaired by 1456524 was inside it).  Termination is by structural
+recursion on the tree (`annotate`). -/
+theorem parse_no_panic (uri : Str → UriOut) (hu : UriTotal uri) (root : XNode) :
+    (parse uri root).isPanic = false :=
+  NP_parse hu root
+
+example : UriTotal uriId := fun _ h => by simp [uriId] at h
+
+/-- Unconditionally: the only way `dmntk_model::parse` can panic on a tree is a panic of the `uriparse`
+call on one of the strings handed to it (in particular the `unwrap` of href.rs:66 is unreachable). -/
+theorem parse_panic_only_from_uriparse (uri : Str → UriOut) (root : XNode)
+    (h : (parse uri root).isPanic = true) : ∃ s, uri s = .panic := by
+  refine Classical.byContradiction fun hne => ?_
+  have hu : UriTotal uri := fun s hs => hne ⟨s, hs⟩
+  rw [parse_no_panic uri hu root] at h
+  cases h
+
+/-- A root element that is not `definitions` is an error — `XmlUnexpectedNode`. -/
+theorem parse_root_not_definitions (uri : Str → UriOut) (root : XNode) (h : root.tagName ≠ N.definitions) :
+    parse uri root = .err (.xmlUnexpectedNode root.tagName) := by
+  unfold parse
+  simp only [annotate_tagName]
+  rw [if_pos (by simpa using h)]
+
+example : (XNode.text [32]).tagName ≠ N.definitions := by decide
+
+/-- A `definitions` element without `name`, or with `name` and without `namespace`, is an error —
+`XmlExpectedMandatoryAttribute` naming the element and the attribute. -/
+theorem parse_root_missing_mandatory (uri : Str → UriOut) (attrs : List XAttr) (cs : List XNode) :
+    ((XNode.elem N.definitions attrs cs).hasAttr A.name = false →
+      parse uri (.elem N.definitions attrs cs) = .err (.xmlExpectedMandatoryAttribute N.definitions A.name)) ∧
+    ((XNode.elem N.definitions attrs cs).hasAttr A.name = true →
+      (XNode.elem N.definitions attrs cs).hasAttr A.namespace_ = false →
+      parse uri (.elem N.definitions attrs cs) =
+        .err (.xmlExpectedMandatoryAttribute N.definitions A.namespace_)) := by
+  constructor
+  · intro h
+    have ha := annotate_attr_none h
+    unfold parse
+    simp only [annotate_name, bne_self_eq_false, Bool.false_eq_true, if_false]
+    unfold parseDefinitions
+    simp only [requiredName, requiredAttribute, ha, annotate_name]
+    rfl
+  · intro h1 h2
+    have ha := annotate_attr_none h2
+    have hn : ∃ v, (annotate (.elem N.definitions attrs cs)).attr A.name = some v := by
+      rw [annotate_attr]
+      simp only [XNode.hasAttr] at h1
+      cases hf : attrs.find? (fun x => !x.ns && x.name == A.name) with
+      | none => rw [hf] at h1; simp at h1
+      | some x => exact ⟨x.value, rfl⟩
+    obtain ⟨v, hv⟩ := hn
+    unfold parse
+    simp only [annotate_name, bne_self_eq_false, Bool.false_eq_true, if_false]
+    unfold parseDefinitions
+    simp only [requiredName, optionalFeelName, requiredAttribute, hv, ha, annotate_name]
+    rfl
+
+example : (XNode.elem N.definitions [] []).hasAttr A.name = false := by decide
+example : (XNode.elem N.definitions [⟨false, A.name, [109]⟩] []).hasAttr A.name = true ∧
+    (XNode.elem N.definitions [⟨false, A.name, [109]⟩] []).hasAttr A.namespace_ = false := by decide
+
+/-- Mandatory attributes, generically over the table `mandatoryAttrs` (item definitions, input data,
+decisions, knowledge models, decision services, knowledge sources need `name`; imports need `name`,
+`importType`, `namespace`): a `definitions` element with a child of the kind that lacks the attribute
+does not yield a model. -/
+theorem parse_missing_mandatory_attribute (uri : Str → UriOut) (attrs : List XAttr) (cs : List XNode)
+    (e a : Str) (hp : (e, a) ∈ mandatoryAttrs) (c : XNode) (hc : c ∈ cs) (hn : c.tagName = e)
+    (hl : c.hasAttr a = false) : (parse uri (.elem N.definitions attrs cs)).isOk = false := by
+  cases h : parse uri (.elem N.definitions attrs cs) with
+  | err e => rfl
+  | panic s => rfl
+  | ok d =>
+    exfalso
+    have hmem : annotate c ∈ (annotate (.elem N.definitions attrs cs)).children :=
+      mem_annotate_children (n := .elem N.definitions attrs cs) hc
+    obtain ⟨v, hv⟩ := parse_ok_attr h hmem hp (by rw [annotate_tagName]; exact hn)
+    rw [annotate_attr_none hl] at hv
+    cases hv
+
+example : (N.decision, A.name) ∈ mandatoryAttrs ∧ (XNode.elem N.decision [] []).tagName = N.decision ∧
+    (XNode.elem N.decision [] []).hasAttr A.name = false := by decide
+
+/-- Mandatory child elements, generically over the table `mandatoryChildren` (input data, decisions,
+knowledge models and decision services need a `variable`): a `definitions` element with a child of
+the kind that has no such child element does not yield a model. -/
+theorem parse_missing_mandatory_child (uri : Str → UriOut) (attrs : List XAttr) (cs : List XNode)
+    (e k : Str) (hp : (e, k) ∈ mandatoryChildren) (c : XNode) (hc : c ∈ cs) (hn : c.tagName = e)
+    (hl : c.hasChild k = false) : (parse uri (.elem N.definitions attrs cs)).isOk = false := by
+  cases h : parse uri (.elem N.definitions attrs cs) with
+  | err e => rfl
+  | panic s => rfl
+  | ok d =>
+    exfalso
+    have hmem : annotate c ∈ (annotate (.elem N.definitions attrs cs)).children :=
+      mem_annotate_children (n := .elem N.definitions attrs cs) hc
+    obtain ⟨v, hv, _⟩ := parse_ok_variable h hmem hp (by rw [annotate_tagName]; exact hn)
+    rw [findIn_none hl] at hv
+    cases hv
+
+example : (N.inputData, N.variable_) ∈ mandatoryChildren ∧
+    (XNode.elem N.inputData [⟨false, A.name, [105]⟩] []).hasChild N.variable_ = false := by decide
+
+/-- … and the `variable` that is read (the first one) needs a `name`: if no `variable` child of the
+element has one, there is no model. -/
+theorem parse_variable_without_name (uri : Str → UriOut) (attrs : List XAttr) (cs : List XNode)
+    (e k : Str) (hp : (e, k) ∈ mandatoryChildren) (c : XNode) (hc : c ∈ cs) (hn : c.tagName = e)
+    (hl : ∀ v ∈ c.childNodes, v.tagName = k → v.hasAttr A.name = false) :
+    (parse uri (.elem N.definitions attrs cs)).isOk = false := by
+  cases h : parse uri (.elem N.definitions attrs cs) with
+  | err e => rfl
+  | panic s => rfl
+  | ok d =>
+    exfalso
+    have hmem : annotate c ∈ (annotate (.elem N.definitions attrs cs)).children :=
+      mem_annotate_children (n := .elem N.definitions attrs cs) hc
+    obtain ⟨v, hv, w, hw⟩ := parse_ok_variable h hmem hp (by rw [annotate_tagName]; exact hn)
+    have hvm := List.mem_of_find?_eq_some hv
+    have hvn := List.find?_some hv
+    rw [annotate_childNodes] at hvm
+    obtain ⟨x, hx, rfl⟩ := List.mem_map.mp hvm
+    rw [annotate_tagName] at hvn
+    rw [annotate_attr_none (hl x hx (by simpa using hvn))] at hw
+    cases hw
+
+/-- Every `outputDecision`, `encapsulatedDecision`, `inputDecision` and `inputData` child of a decision
+service needs an `href`. -/
+theorem parse_service_reference_without_href (uri : Str → UriOut) (attrs : List XAttr) (cs : List XNode)
+    (c : XNode) (hc : c ∈ cs) (hn : c.tagName = N.decisionService) (k : Str) (hk : k ∈ serviceRefs)
+    (r : XNode) (hr : r ∈ c.childNodes) (hrn : r.tagName = k) (hl : r.hasAttr A.href = false) :
+    (parse uri (.elem N.definitions attrs cs)).isOk = false := by
+  cases h : parse uri (.elem N.definitions attrs cs) with
+  | err e => rfl
+  | panic s => rfl
+  | ok d =>
+    exfalso
+    have hmem : annotate c ∈ (annotate (.elem N.definitions attrs cs)).children :=
+      mem_annotate_children (n := .elem N.definitions attrs cs) hc
+    obtain ⟨w, hw⟩ := parse_ok_service_ref h hmem (by rw [annotate_tagName]; exact hn) hk
+      (mem_annotate_children hr) (by rw [annotate_tagName]; exact hrn)
+    rw [annotate_attr_none hl] at hw
+    cases hw
+
+/-- The numbers of clauses, rules and entries of a parsed decision table are those of the `input`,
+`output`, `rule`, `inputEntry`, `outputEntry` elements of the `decisionTable` element: the parser
+neither pads nor truncates. -/
+theorem parsed_table_shape (c : ANode) (t : DTable) (h : parseDecisionTableNode c = .ok t) :
+    t.inputs.length = (filterIn c.children N.input).length ∧
+    t.outputs.length = (filterIn c.children N.output).length ∧
+    t.rules.map (fun r => (r.inputEntries.length, r.outputEntries.length)) =
+      (filterIn c.children N.rule).map
+        (fun r => ((filterIn r.children N.inputEntry).length, (filterIn r.children N.outputEntry).length)) :=
+  parseDecisionTableNode_counts h
+
+/-- The builder never panics on a parsed table, whatever parses as FEEL. -/
+theorem parsed_table_build_no_panic (o : FeelOracle) (t : DTable) :
+    (MB.buildTable (toTableS o t)).isPanic = false :=
+  MB.dt_build_no_panic _
+
+/-- "Rules whose number of entries disagrees with the table's clauses, tables without outputs": the
+builder reports an error for such a parsed table, whatever parses as FEEL. -/
+theorem parsed_table_size_mismatch_rejected (o : FeelOracle) (t : DTable)
+    (h : t.outputs = [] ∨ ∃ r ∈ t.rules,
+      r.inputEntries.length ≠ t.inputs.length ∨ r.outputEntries.length ≠ t.outputs.length) :
+    (MB.buildTable (toTableS o t)).isError = true := by
+  cases hb : MB.buildTable (toTableS o t) with
+  | error m => rfl
+  | panic s =>
+    have := MB.dt_build_no_panic (toTableS o t)
+    rw [hb] at this
+    cases this
+  | ok ps =>
+    exfalso
+    obtain ⟨hw, _⟩ := MB.dt_build_shape _ _ hb
+    simp only [MB.TableS.wellShaped, toTableS, Bool.and_eq_true, List.all_eq_true, decide_eq_true_eq,
+      List.length_map, Bool.not_eq_true', List.isEmpty_eq_false_iff, ne_eq, List.map_eq_nil_iff] at hw
+    rcases h with h | ⟨r, hr, h⟩
+    · exact hw.1 h
+    · have := hw.2 _ (List.mem_map.mpr ⟨r, hr, rfl⟩)
+      simp only [List.length_map] at this
+      omega
+
+example : (⟨[⟨[105], none⟩, ⟨[105], none⟩], [⟨none, none, none, none⟩], [⟨[[45]], [[49]]⟩], .unique, .ruleAsRow, none⟩ : DTable).outputs ≠ [] ∧
+    ∃ r ∈ (⟨[⟨[105], none⟩, ⟨[105], none⟩], [⟨none, none, none, none⟩], [⟨[[45]], [[49]]⟩], .unique, .ruleAsRow, none⟩ : DTable).rules,
+      r.inputEntries.length ≠ 2 := by
+  refine ⟨by decide, ⟨[[45]], [[49]]⟩, by simp, by decide⟩
+
+/-- The same at the level of the XML element: a `decisionTable` element without `output` children, or
+with a `rule` whose number of `inputEntry` / `outputEntry` children differs from the number of `input`
+/ `output` children of the table, ends in an error — of the parser or of the builder. -/
+theorem xml_table_size_mismatch_rejected (o : FeelOracle) (c : ANode)
+    (h : filterIn c.children N.output = [] ∨ ∃ r ∈ filterIn c.children N.rule,
+      (filterIn r.children N.inputEntry).length ≠ (filterIn c.children N.input).length ∨
+      (filterIn r.children N.outputEntry).length ≠ (filterIn c.children N.output).length) :
+    match parseDecisionTableNode c with
+    | .error _ => True
+    | .ok t => (MB.buildTable (toTableS o t)).isError = true := by
+  cases hp : parseDecisionTableNode c with
+  | error e => trivial
+  | ok t =>
+    simp only
+    obtain ⟨h1, h2, h3⟩ := parseDecisionTableNode_counts hp
+    apply parsed_table_size_mismatch_rejected
+    rcases h with h | ⟨r, hr, h⟩
+    · left
+      rw [h] at h2
+      exact List.eq_nil_of_length_eq_zero (by simpa using h2)
+    · right
+      have hm : ((filterIn r.children N.inputEntry).length, (filterIn r.children N.outputEntry).length) ∈
+          t.rules.map (fun r => (r.inputEntries.length, r.outputEntries.length)) := by
+        rw [h3]; exact List.mem_map.mpr ⟨r, hr, rfl⟩
+      obtain ⟨x, hx, hxe⟩ := List.mem_map.mp hm
+      simp only [Prod.mk.injEq] at hxe
+      exact ⟨x, hx, by omega⟩
+
+/-- Building the tables of a parsed definitions value never panics. -/
+theorem buildTables_no_panic (o : FeelOracle) (ts : List DTable) : (buildTables o ts).isPanic = false := by
+  induction ts with
+  | nil => rfl
+  | cons t ts ih =>
+    simp only [buildTables]
+    have h := MB.dt_build_no_panic (toTableS o t)
+    cases hb : MB.buildTable (toTableS o t) with
+    | panic s => rw [hb] at h; cases h
+    | ok ps => exact ih
+    | error m =>
+      simp only
+      cases hr : buildTables o ts with
+      | panic s => rw [hr] at ih; cases ih
+      | ok u => rfl
+      | error m' => rfl
+
+/-- **Text-level tree → usable evaluator model or error, never a panic, never non-termination**, in one
+statement: for every tree roxmltree can deliver, every answer of the FEEL parser on the cell texts and
+every `uriparse` that does not panic, loading ends in a parse error, a build error or a model.
+(`load` = `parse`, then every decision table through the builder model, then the requirement graph
+through the traversal model with the fuel of `build_terminates`.) -/
+theorem parse_then_build_no_panic (uri : Str → UriOut) (hu : UriTotal uri) (o : FeelOracle) (root : XNode) :
+    (load uri o root).isPanic = false ∧ (load uri o root).isDiverge = false := by
+  unfold load
+  have hp := parse_no_panic uri hu root
+  cases h : parse uri root with
+  | panic s => rw [h] at hp; cases hp
+  | err e => exact ⟨rfl, rfl⟩
+  | ok d =>
+    simp only
+    have hb := buildTables_no_panic o d.tables
+    cases ht : buildTables o d.tables with
+    | panic s => rw [ht] at hb; cases hb
+    | error m => exact ⟨rfl, rfl⟩
+    | ok u =>
+      simp only
+      cases hg : toDefs d with
+      | none => exact ⟨rfl, rfl⟩
+      | some g =>
+        simp only
+        have := MB.build_terminates g (max (MB.nodeCount g) g.items.length) (by simp [MB.bound])
+        cases hbd : MB.build g (max (MB.nodeCount g) g.items.length) with
+        | ok => exact ⟨rfl, rfl⟩
+        | error => exact ⟨rfl, rfl⟩
+        | diverge => exact absurd hbd this
+
+/-- A minimal model: `definitions` with one decision whose logic is a literal expression. -/
+def minimalModel : XNode :=
+  .elem N.definitions [⟨false, A.name, [109]⟩, ⟨false, A.namespace_, [110]⟩]
+    [.text [10], .elem N.decision [⟨false, A.name, [68]⟩, ⟨false, A.id, [95, 100]⟩]
+      [.elem N.variable_ [⟨false, A.name, [68]⟩] [],
+       .elem N.literalExpression [] [.elem N.text [] [.text [49]]]]]
+
+/-- The model loads (so the theorems above are not about a parser that rejects everything). -/
+theorem minimal_model_loads :
+    (match load uriId ⟨fun _ => true, fun _ => true, fun _ => true⟩ minimalModel with
+     | .model d => d.drgElements.length == 1 && d.tables.isEmpty
+     | _ => false) = true := by
+  decide +kernel
+
+end Dmn.Xml
